@@ -12,13 +12,18 @@
 //   abs <Name> <idx> anc=<idx,...>                      abstract classes: strict abstract ancestors (is_base_of)
 //   iface <Name> <code> hook=<0|1> bases=<idx,...>      leaf interface: has own Visitor hook; abstract bases
 //   node <label> cls=<demangled dynamic type> sym=<mangled dynamic type> cat=<code> dyn=<codes> absdyn=<idx,..> fired=<hooks> chain=<hooks>
-//        view1=<codes> view2=<codes>                    (tab-separated: labels and class names contain spaces)
+//        view1=<codes> view2=<codes> firedself=<0|1,..> chainself=<0|1,..> remaster=<0|1|->
+//                                                       (tab-separated: labels and class names contain spaces)
 //     dyn    leaf interfaces X with dynamic_cast<const ipr::X*>(node) != 0
 //     fired  hooks entered by node.accept(v) on a visitor overriding every hook (leaf hook = its code, abstract
 //            hook = 1000+idx)
 //     chain  hooks entered on a visitor overriding only Classic (which records, then runs the library default)
 //            and the seven pure sinks (which record and stop)
 //     view1  codes K with util::view<ipr::K>(node) == &node;   view2  codes K with another non-null answer
+//     firedself / chainself   for every hook of `fired` / `chain`, in order: 1 when the object the hook RECEIVED is the visited
+//            node itself (same most-derived object), 0 when it is another object
+//     remaster  1 when the node is a declaration whose master() is ANOTHER node (a redeclaration), 0 when it is its own master,
+//            - when it is not a declaration
 //   # lines are statistics.
 #include <ipr/impl>
 #include <ipr/traversal>
@@ -26,6 +31,7 @@
 #include <cstdio>
 #include <cstdlib>
 #include <cstring>
+#include <stdexcept>
 #include <string>
 #include <vector>
 #include <typeinfo>
@@ -66,10 +72,19 @@ template<class T> std::vector<int> abstract_bases()
 }
 
 // ---- visitor 1: every hook overridden, records and stops -------------------------------------------------------
-struct Recorder { std::vector<int> fired; };
+struct Recorder {
+   std::vector<int> fired;
+   std::vector<int> self;                 // per entry of `fired`: did the hook receive the node being visited?
+   const void* target = nullptr;          // most-derived address of the node being visited
+   template<class X> void record(int hook, const X& received)
+   {
+      fired.push_back(hook);
+      self.push_back(dynamic_cast<const void*>(&received) == target ? 1 : 0);
+   }
+};
 
 struct Sinks1 : Visitor, Recorder {
-#define A(X,I) void visit(const ipr::X&) override { fired.push_back(ABS + I); }
+#define A(X,I) void visit(const ipr::X& x) override { record(ABS + I, x); }
    ABSTRACTS(A)
 #undef A
 };
@@ -77,7 +92,7 @@ struct Sinks1 : Visitor, Recorder {
 template<class X, int N, class Next, bool = HasHook<X>>
 struct Hook : Next {
    using Next::visit;
-   void visit(const X&) override { this->fired.push_back(N); }
+   void visit(const X& x) override { this->record(N, x); }
 };
 template<class X, int N, class Next>
 struct Hook<X, N, Next, false> : Next { };
@@ -95,14 +110,14 @@ using All_hooks = Chain<Sinks1
 
 // ---- visitor 2: only Classic and the seven sinks overridden; Classic records and continues with the default -----
 struct Defaults_only : Visitor, Recorder {
-   void visit(const ipr::Node&) override { fired.push_back(ABS + 0); }
-   void visit(const ipr::Expr&) override { fired.push_back(ABS + 1); }
-   void visit(const ipr::Classic& c) override { fired.push_back(ABS + 2); Visitor::visit(c); }
-   void visit(const ipr::Name&) override { fired.push_back(ABS + 3); }
-   void visit(const ipr::Type&) override { fired.push_back(ABS + 4); }
-   void visit(const ipr::Directive&) override { fired.push_back(ABS + 5); }
-   void visit(const ipr::Stmt&) override { fired.push_back(ABS + 6); }
-   void visit(const ipr::Decl&) override { fired.push_back(ABS + 7); }
+   void visit(const ipr::Node& x) override { record(ABS + 0, x); }
+   void visit(const ipr::Expr& x) override { record(ABS + 1, x); }
+   void visit(const ipr::Classic& c) override { record(ABS + 2, c); Visitor::visit(c); }
+   void visit(const ipr::Name& x) override { record(ABS + 3, x); }
+   void visit(const ipr::Type& x) override { record(ABS + 4, x); }
+   void visit(const ipr::Directive& x) override { record(ABS + 5, x); }
+   void visit(const ipr::Stmt& x) override { record(ABS + 6, x); }
+   void visit(const ipr::Decl& x) override { record(ABS + 7, x); }
 };
 
 // ---- per leaf category K: dynamic_cast and view<K> ----------------------------------------------------------------
@@ -175,14 +190,22 @@ static void observe(const char* label, const Node& n)
    ABSTRACTS(A)
 #undef A
    All_hooks v1;
+   v1.target = dynamic_cast<const void*>(&n);
    n.accept(v1);
    Defaults_only v2;
+   v2.target = v1.target;
    n.accept(v2);
+   const char* remaster = "-";
+   if (auto* d = dynamic_cast<const ipr::Decl*>(&n)) {
+      try { remaster = dynamic_cast<const void*>(&d->master()) == v1.target ? "0" : "1"; }
+      catch (const std::logic_error&) { remaster = "!"; }
+   }
    const char* mangled = typeid(n).name();
    if (*mangled == '*') ++mangled;                       // internal-linkage types
-   std::printf("node\t%s\tcls=%s\tsym=%s\tcat=%d\tdyn=%s\tabsdyn=%s\tfired=%s\tchain=%s\tview1=%s\tview2=%s\n",
+   std::printf("node\t%s\tcls=%s\tsym=%s\tcat=%d\tdyn=%s\tabsdyn=%s\tfired=%s\tchain=%s\tview1=%s\tview2=%s\tfiredself=%s\tchainself=%s\tremaster=%s\n",
                label, cls.c_str(), mangled, static_cast<int>(n.category), join(dyn).c_str(), join(absdyn).c_str(),
-               join(v1.fired).c_str(), join(v2.fired).c_str(), join(view1).c_str(), join(view2).c_str());
+               join(v1.fired).c_str(), join(v2.fired).c_str(), join(view1).c_str(), join(view2).c_str(),
+               join(v1.self).c_str(), join(v2.self).c_str(), remaster);
 }
 
 // view<K> asked through the STATIC type the factory handed out (an implementation class, or an interface more derived than Node) must
@@ -341,6 +364,18 @@ static void build_and_observe(unsigned variant)
    auto* tmpl = gscope.make_primary_template(lex.get_identifier(u8"tpl"), forall);
    obs("make_primary_template", tmpl);
    obs("make_secondary_template", gscope.make_secondary_template(lex.get_identifier(u8"tpl2"), forall));
+   // -- every declaration kind of a general scope once more as a REDECLARATION: the second (and third) declaration of the same
+   //    name with the same type in the same scope is another node of the same class, whose master() is the first one; category,
+   //    accept, the default hooks and view<K> are about the node visited, whichever declaration of its decl-set it is
+   obs("make_var#redeclaration", gscope.make_var(id, T));
+   obs("make_var#redeclaration-2", gscope.make_var(id, T));
+   obs("make_alias#redeclaration", gscope.make_alias(lex.get_identifier(u8"al"), T));
+   obs("make_field#redeclaration", klass->declare_field(lex.get_identifier(u8"fld"), T));
+   obs("make_bitfield#redeclaration", klass->declare_bitfield(lex.get_identifier(u8"bf"), T));
+   obs("make_typedecl#redeclaration", gscope.make_typedecl(lex.get_identifier(u8"S"), lex.class_type()));
+   obs("make_fundecl#redeclaration", gscope.make_fundecl(lex.get_identifier(u8"f"), fun_t));
+   obs("make_primary_template#redeclaration", gscope.make_primary_template(lex.get_identifier(u8"tpl"), forall));
+   obs("make_secondary_template#redeclaration", gscope.make_secondary_template(lex.get_identifier(u8"tpl2"), forall));
    obs("get_guide_name", lex.get_guide_name(*tmpl));
 
    // -- parameters
